@@ -6,6 +6,7 @@
 package cache
 
 import (
+	"reflect"
 	"sync/atomic"
 
 	"github.com/golang/groupcache/lru"
@@ -51,6 +52,19 @@ func (d *dispatcher) VerifLen() []int {
 	for i, item := range d.list {
 		item.mu.Lock()
 		result[i] = item.cache.Len()
+		item.mu.Unlock()
+	}
+	return result
+}
+
+// VerifIndexLen get the count of keys held by the index (map) of each shard,
+// which is always the same as the count of its recency list
+func (d *dispatcher) VerifIndexLen() []int {
+	result := make([]int, len(d.list))
+	for i, item := range d.list {
+		item.mu.Lock()
+		// the map of groupcache's lru is not exported
+		result[i] = reflect.ValueOf(item.cache).Elem().FieldByName("cache").Len()
 		item.mu.Unlock()
 	}
 	return result
